@@ -116,9 +116,11 @@ func (dl *datalog) nextWritableSegmentID() (uint16, uint64, error) {
 }
 
 func (dl *datalog) swapSegment() error {
-	// Pick unfilled segment.
+	// Pick unfilled segment. Records are replayed in sequence order, so only the newest segment
+	// can take new records: an unfilled older one (e.g. an empty segment left behind by an
+	// earlier version) must not be written to again.
 	for _, seg := range dl.segments {
-		if seg != nil && !seg.meta.Full {
+		if seg != nil && !seg.meta.Full && seg.sequenceID == dl.maxSequenceID {
 			dl.curSeg = seg
 			return nil
 		}
